@@ -154,7 +154,6 @@ def fmtLoad (c : Cfg) : LoadRes → String
   | .accept _ => "accept live=ok"
   | .reject cls =>
     if cls == "quota" || cls == "url" || c.flows.length ≤ 1 then "reject:" ++ cls else "reject"
-  | .panic cls => "panic:" ++ cls
   | .crash => "crash:stack-overflow"
 
 def fmtTxn (r : TxnRes) : String :=
@@ -294,7 +293,7 @@ def judgeFinish (s : JudgeSt) : String :=
           (match firstBad with
            | some t => " first-bad-txn=" ++ t
            | none => "")
-        s!"fail {classify s.cfg o} {msg}"
+        s!"fail - {msg}"
 
 def main (args : List String) : IO Unit :=
   match args with
